@@ -292,6 +292,10 @@ pub fn run(case: &TableCase, spec: &SchedSpec) -> RunReport {
                 format!("table operation panicked: {} at {}", msg, loc),
             ));
         }
+        (Outcome::Deadlock { msg }, _) => {
+            // an operation that never returns: every task of the run is blocked inside the table
+            violations.push(Violation::new("C15", "operation-returns", "deadlock", format!("table operations block for ever: {}", msg)));
+        }
         (o, _) => harness_error = Some(format!("table run ended with {:?}", o)),
     }
     RunReport {
